@@ -119,6 +119,8 @@ where
     }
 
     fn _entries(&self) -> EntriesGuard<'_, K, V, C> {
+        #[cfg(feature = "verif_hooks")]
+        crate::verif::yield_point(crate::verif::Site::Global);
         EntriesGuard::new(self.entries
             .lock()
             .expect("The global mutex protecting the LockableCache is poisoned. This shouldn't happen since there shouldn't be any user code running while this lock is held so no thread should ever panic with it"))
@@ -323,6 +325,8 @@ where
         OnEvictFn: FnMut(Vec<Guard<K, V, C, S>>) -> Result<(), E>,
     {
         let mutex = Self::_load_or_insert_mutex_for_key_sync(&this, &key, limit)?;
+        #[cfg(feature = "verif_hooks")]
+        crate::verif::yield_point(crate::verif::Site::Key);
         // Now we have an Arc::clone of the mutex for this key, and the global mutex is already unlocked so other threads can access the cache.
         // The following blocks the thread until the mutex for this key is acquired.
 
@@ -347,6 +351,8 @@ where
         OnEvictFn: FnMut(Vec<Guard<K, V, C, S>>) -> F,
     {
         let mutex = Self::_load_or_insert_mutex_for_key_async(&this, &key, limit).await?;
+        #[cfg(feature = "verif_hooks")]
+        crate::verif::yield_point(crate::verif::Site::Key);
         // Now we have an Arc::clone of the mutex for this key, and the global mutex is already unlocked so other threads can access the cache.
         // The following blocks the task until the mutex for this key is acquired.
 
@@ -370,6 +376,8 @@ where
         OnEvictFn: FnMut(Vec<Guard<K, V, C, S>>) -> Result<(), E>,
     {
         let mutex = Self::_load_or_insert_mutex_for_key_sync(&this, &key, limit)?;
+        #[cfg(feature = "verif_hooks")]
+        crate::verif::yield_point(crate::verif::Site::Key);
         // Now we have an Arc::clone of the mutex for this key, and the global mutex is already unlocked so other threads can access the cache.
         // The following tries to lock the mutex.
 
@@ -409,6 +417,8 @@ where
         OnEvictFn: FnMut(Vec<Guard<K, V, C, S>>) -> F,
     {
         let mutex = Self::_load_or_insert_mutex_for_key_async(&this, &key, limit).await?;
+        #[cfg(feature = "verif_hooks")]
+        crate::verif::yield_point(crate::verif::Site::Key);
         // Now we have an Arc::clone of the mutex for this key, and the global mutex is already unlocked so other threads can access the cache.
         // The following tries to lock the mutex.
 
@@ -501,6 +511,8 @@ where
                 //              while `entries` is locked and invariant 2C is fulfilled.
                 let mutex = PrimaryArc::clone(mutex);
                 async move {
+                    #[cfg(feature = "verif_hooks")]
+                    crate::verif::yield_point(crate::verif::Site::Key);
                     let guard = mutex.lock_owned().await;
                     let guard = Self::_make_guard(this, key, guard);
                     if guard.value().is_some() {
@@ -614,6 +626,34 @@ where
                 let value = value.into_inner().value.expect("Invariant 2 violated. There shouldn't be any `None` entries since there aren't any ReplicaArcs.");
                 (key, value)
             })
+    }
+
+    /// Snapshot of the internal state for verification harnesses: for each entry in iteration order its key,
+    /// the number of replicas of its mutex and, if the mutex is currently unlocked, `f` applied to its value.
+    /// Returns `None` if the global lock is poisoned. Doesn't pass any hook point and doesn't run the invariant checks.
+    #[cfg(feature = "verif_hooks")]
+    pub fn verif_snapshot<R>(
+        &self,
+        f: impl Fn(&C::WrappedV<V>) -> R,
+    ) -> Option<Vec<crate::verif::EntrySnapshot<K, R>>> {
+        let entries = self.entries.lock().ok()?;
+        Some(
+            entries
+                .iter()
+                .map(|(key, mutex)| {
+                    let num_replicas = mutex.num_replicas();
+                    let unlocked_value = match PrimaryArc::clone(mutex).try_lock_owned() {
+                        Ok(guard) => Some(guard.value.as_ref().map(&f)),
+                        Err(_) => None,
+                    };
+                    crate::verif::EntrySnapshot {
+                        key: key.clone(),
+                        num_replicas,
+                        unlocked_value,
+                    }
+                })
+                .collect(),
+        )
     }
 
     // Caveat: Locked keys are listed even if they don't carry a value
